@@ -133,7 +133,13 @@ FIXED = ["", " ", "1 = 2", "f(x + 1 = 2)", "f(k = 1)", "y[3]", "y[1.5]", "y[True
          "y ~ x - 1", "y ~ x + 0", "y ~ x * z - x:z", "y ~ (x + z) ** 2", "y ~ (x + z) ** z", "y ~ x / z", "y ~ x / (z + w)",
          "y ~ a:b:c", "y ~ a*b*c", "y ~ x =", "= x", "y ~ x = z", "y ~ f(x, k = z + 1)", "y ~ f(k = 1, x)",
          "y ~ x + true", "y ~ x + false", "y ~ x + none", "y ~ NONE", "y ~ FALSE + x", "true ~ x", "y ~ ((false))",
-         "y ~ `true`", "y ~ True + x", "y ~ False + x", "y ~ f(true)", "y ~ x[true]", "y ~ inf + nan"]
+         "y ~ `true`",
+         # two call terms whose printed names coincide (the name drops the parentheses of the argument) but whose
+         # trees differ: both are terms of the formula, '-' removes the one that is written
+         "y ~ I((a + b) * c) + I(a + b * c)", "y ~ x + I(a - (b - c)) - I(a - b - c)", "y ~ I(a - b - c) + I(a - (b - c))",
+         "y ~ f((a + b) * c):f(a + b * c)", "y ~ I((a + b) * c) + I(a + b * c) - I(a + b * c)",
+         "y ~ x + (z ~ w)", "(y ~ x) ~ z", "y ~ (x ~ z)", "((y ~ x)) ~ (z ~ w)", "(y ~ x) + (z ~ w)",
+         "y ~ True + x", "y ~ False + x", "y ~ f(true)", "y ~ x[true]", "y ~ inf + nan"]
 
 
 SPLITTABLE = {"**": ["*", "*"], "==": ["=", "="], "!=": ["!", "="], "<=": ["<", "="], ">=": [">", "="], "//": ["/", "/"]}
@@ -482,12 +488,27 @@ def _fullparen(e):
     return "?"
 
 
+# call terms whose printed names coincide although their argument trees differ (explicit grouping is part of the
+# formula: nothing that is written is silently ignored): text -> (number of common terms, components of the last)
+SAME_NAME = {"y ~ I((a + b) * c) + I(a + b * c)": (3, 1), "y ~ x + I(a - (b - c)) - I(a - b - c)": (3, 1),
+             "y ~ I(a - b - c) + I(a - (b - c))": (3, 1), "y ~ f((a + b) * c):f(a + b * c)": (2, 2),
+             "y ~ I((a + b) * c) + I(a + b * c) - I(a + b * c)": (2, 1)}
+
+
 def oracle(c):
     """the statement of C01 checked on the implementation alone"""
     from formulae.scanner import Scanner
     from formulae.parser import Parser
     from formulae import model_description
     s = c["s"]
+    if s in SAME_NAME:
+        m_ = model_description(s)
+        terms_ = list(m_.common_terms)
+        n_, k_ = SAME_NAME[s]
+        if len(terms_) != n_ or len(getattr(terms_[-1], "components", [])) != k_:
+            return (f"{s!r}: {len(terms_)} common terms {[str(t.name) for t in terms_]}, the last with "
+                    f"{len(getattr(terms_[-1], 'components', []))} factor(s); the differently grouped call arguments are "
+                    f"different terms: {n_} terms, the last with {k_} factor(s)")
     if c.get("before") is not None:
         try:
             model_description(c["before"])
